@@ -149,6 +149,11 @@ C04_EMBED_PART = (G, "gosym_part", dict(name="c04_embed", entry="internal/zzveri
                                         desc="the real C++, Python and MATLAB protocol emitters embed GetProtocolSchemaString(P) verbatim exactly once as the writer's schema, "
                                              "readers refer to the writer's schema, and the emitted C++ VersionFromSchema compares with schema_ and ends in a throw"))
 
+C04_DETERMINES_PART = (G, "gosym_part", dict(name="c04_determines", entry="internal/zzverif.C04Determines", args_quick=(1,), args_thorough=(0,),
+                               required_sites=("wire-edit-changes-schema", "same-model-same-schema"), assumptions=C04_ASSUME,
+                               desc="one wire-affecting edit (symbolic new primitive / key / enum base / vector length / array dimension, or unnamed fixed-array dimension, field type of an imported record sharing its simple name with a local one, or one of 10 structural edits): "
+                                    "schema text differs whenever the edit changes the wire plan, and is identical otherwise"))
+
 PARTS = {
     "C08": [
         (G, "gosym_part", dict(name="c08_python_package", entry="internal/zzverif.C08PythonPackage",
@@ -240,6 +245,7 @@ PARTS = {
     ],
     "C15": [
         C04_EMBED_PART,
+        C04_DETERMINES_PART,   # a reader can only refuse a foreign stream if wire-different models have different schema texts
         (CC, "c15_cc_header", dict()),
         (PY, "c15_py_header", dict()),
     ],
@@ -250,10 +256,7 @@ PARTS = {
                                assumptions=C04_ASSUME,
                                desc="real dsl.Validate + GetProtocolSchemaString on a symbolic model, twice: plain vs decorated with comments on every commentable node, "
                                     "a computed field, unrelated definitions/protocol, reversed definition order, other file and symbolic line offset: schema text identical")),
-        (G, "gosym_part", dict(name="c04_determines", entry="internal/zzverif.C04Determines", args_quick=(1,), args_thorough=(0,),
-                               required_sites=("wire-edit-changes-schema", "same-model-same-schema"), assumptions=C04_ASSUME,
-                               desc="one wire-affecting edit (symbolic new primitive / key / enum base / vector length / array dimension, or one of 9 structural edits): "
-                                    "schema text differs whenever the edit changes the wire plan, and is identical otherwise")),
+        C04_DETERMINES_PART,
     ],
     "C11": [
         (G, "gosym_part", dict(name="c11_all_or_nothing", entry="internal/cmd.VerifC11", args_quick=(1,), args_thorough=(1,), key_fn=c11_key,
@@ -336,6 +339,7 @@ PARTS = {
                                     "through the backend head table must equal Plan(T); vector lengths / array dimensions are symbolic 64-bit values",
                                assumptions=["head tables in harness/go/internal/zzverif/zz_plan.go give the meaning of each runtime entry point",
                                             "type shapes limited to the generator in zz_gen.go (depth bound; union = 2 cases (+null); records 1-2 fields; one generic parameter)"])),
+        C02_UNION3_PART,   # Python NDJSON is one of the backends: same tagged/untagged decision as C++ and as the documented JSON kinds
     ],
 }
 
